@@ -53,7 +53,7 @@ func (p *pipeSub) readValues(n int, d time.Duration) error {
 // (hook H5) + slack although the subscriber it is writing to stops reading, also when another
 // writer on the same connection finishes its own write in the meantime.
 //
-// variant A (even rounds) — the subscriber's own handler:
+// variant A (rounds 0, 3, …) — the subscriber's own handler:
 //
 //	connection 1 (pipe) sends SUBSCRIBE ch and does not read the confirmation yet;
 //	connection 3 PUBLISH ch m0 (Send arms its deadline on connection 1 and waits for the
@@ -61,12 +61,16 @@ func (p *pipeSub) readValues(n int, d time.Duration) error {
 //	-> the PUBLISH must reply (0) within deadline + slack; a late subscriber 2 and a second
 //	publisher 4 must not block: SUBSCRIBE ch confirmed, PUBLISH ch hello reaches 2, replies 1.
 //
-// variant B (odd rounds) — another Send:
+// variant B (rounds 1, 4, …) — another Send:
 //
 //	connection 1 (pipe) subscribes to X and Y; connection 4 PUBLISH Y b is writing to it (unread);
 //	connection 3 PUBLISH X a arms its deadline on connection 1 and queues behind that write;
 //	connection 1 reads exactly the first message, then never reads again;
 //	-> PUBLISH Y replies 1, PUBLISH X must reply (0) within deadline + slack; then as in A.
+//
+// variant C (rounds 2, 5, …) — another Send of another database: as B, but connection 1 does SELECT 1
+// between its two SUBSCRIBEs and connection 4 publishes Y in database 1: one connection, subscriber
+// in the channel tables of two databases.
 //
 // Written as sequential traces for `pubsubrun seq` (the order of effects is determined in both
 // variants); a command that does not come back is an ERR line: the failing input.
@@ -117,10 +121,7 @@ func dlresetCmd(args []string) error {
 				*cp.c = c
 			}
 		}
-		variant := "A"
-		if r%2 == 1 {
-			variant = "B"
-		}
+		variant := []string{"A", "B", "C"}[r%3]
 		t0 := time.Now()
 		if fail == "" && variant == "A" {
 			fmt.Fprintf(out, "OP S 1 %s\n", hx(x))
@@ -138,11 +139,23 @@ func dlresetCmd(args []string) error {
 				fail = fmt.Sprintf("PUBLISH m0 by connection 3 did not come back within write deadline %v + %v (connection 1 read its SUBSCRIBE confirmation while the PUBLISH was writing to it, then stopped reading): %v", D, slack, err)
 			}
 		}
-		if fail == "" && variant == "B" {
+		if fail == "" && variant != "A" {
 			fmt.Fprintf(out, "OP S 1 %s\nOP S 1 %s\n", hx(x), hx(y))
 			s.send([]byte("SUBSCRIBE"), x)
 			if err := s.readValues(1, 5*time.Second); err != nil {
 				fail = fmt.Sprintf("connection 1 SUBSCRIBE: %v", err)
+			}
+			if variant == "C" && fail == "" {
+				// channel Y lives in database 1: connection 1 becomes a subscriber of two databases
+				s.send([]byte("SELECT"), []byte("1"))
+				n := len(s.buf)
+				if err := s.readValues(1, 5*time.Second); err != nil {
+					fail = fmt.Sprintf("connection 1 SELECT 1: %v", err)
+				}
+				s.buf = s.buf[:n] // the model does not know SELECT
+				if err := p4.silent(replyTimeout, []byte("SELECT"), []byte("1")); err != nil && fail == "" {
+					fail = fmt.Sprintf("connection 4 SELECT 1: %v", err)
+				}
 			}
 			s.send([]byte("SUBSCRIBE"), y)
 			if err := s.readValues(1, 5*time.Second); err != nil && fail == "" {
@@ -167,6 +180,11 @@ func dlresetCmd(args []string) error {
 				if err := <-e3; err != nil && fail == "" {
 					fail = fmt.Sprintf("PUBLISH X by connection 3 did not come back within write deadline %v + %v: connection 1 is subscribed to X and Y; the PUBLISH to Y was writing to it, the PUBLISH to X queued behind it; connection 1 read the first message and then stopped reading: %v", D, slack, err)
 				}
+			}
+		}
+		if variant == "C" && fail == "" {
+			if err := p4.silent(replyTimeout, []byte("SELECT"), []byte("0")); err != nil {
+				fail = fmt.Sprintf("connection 4 SELECT 0: %v", err)
 			}
 		}
 		elapsed := time.Since(t0)
